@@ -211,6 +211,8 @@ def ref_step(spec, state, variant=None):
                         vn -= term
                         sc += abs(term)
                         labels.add("lane-drop-term" if dl > 0 else "lane-gain-term")
+                        if N == 1 and "merging-term" in labels and delta is not None and o_up is not None and o_up["kind"] in S.RAMP_KINDS and ins:
+                            labels.add("merging+lane-term-on-one-segment")
             v_n.append((vn, sc))
         out[l["id"]] = {"rho": rho_n, "v": v_n}
     return out, qo, labels
